@@ -283,6 +283,27 @@ OneComplaintPerCause ==
   \A p \in Honest : \A d \in Dealers :
      Cardinality({i \in 1..Len(bq[p]) : bq[p][i].m.t = "complaint" /\ bq[p][i].m.j = d}) <= 1
 
+(* ---------------- liveness and refinement ---------------- *)
+\* with weak fairness on the protocol steps every run reaches End at every honest participant: the round structure cannot
+\* be blocked by Byzantine messages (checked without a state constraint, see MC configs)
+FairSpec    == Spec /\ WF_vars(Next)
+Termination == <>(round = 4)
+
+\* Refinement: the network implements the ideal "verifiable dealing" functionality in which ONE verdict per dealer and ONE
+\* key exist.  Abstract state: verdict[d] \in {"undecided", "qualified", "disqualified"} and the committed polynomial of every
+\* qualified dealer; it is undecided until the end and then fixed for good.  The mapping reads them off ANY honest participant
+\* (Agreement makes the choice immaterial; the refinement check fails if two honest participants could be mapped differently).
+AnyHonest == CHOOSE p \in Honest : TRUE
+AbsVerdict == [d \in Dealers |-> IF round < 4 THEN "undecided"
+                                   ELSE IF d \in res[AnyHonest].disq THEN "disqualified" ELSE "qualified"]
+AbsCommit  == [d \in Dealers |-> IF round < 4 \/ d \in res[AnyHonest].disq THEN NONE ELSE node[AnyHonest][d].vP]
+Ideal == INSTANCE IdealDealing WITH verdict <- AbsVerdict, commit <- AbsCommit, honestDealers <- Dealers \cap Honest
+RefinesIdeal == Ideal!Spec
+\* every honest participant maps to the same abstract state
+MappingIndependent == \A p \in Honest : round = 4 =>
+                         /\ res[p].disq = res[AnyHonest].disq
+                         /\ \A d \in Dealers \ res[p].disq : node[p][d].vP = node[AnyHonest][d].vP
+
 TypeOK ==
   /\ round \in 1..4 /\ phase \in {0, 1}
   /\ \A p \in Honest : \A d \in Dealers : node[p][d].ct => node[p][d].st
